@@ -76,6 +76,7 @@ type op struct {
 	Down   bool
 	Dt     int64  // advance: ms
 	Member uint64 // member: PD member id
+	LoadFail bool // restart: the read of the persisted status fails
 }
 type boot struct {
 	C       cfg
@@ -130,6 +131,13 @@ func (f fault) coq() string {
 	return fmt.Sprintf("(Fault %s %s %s)", sv, coqfmt.Bool(f.RepFail), al)
 }
 func (o op) coq() string {
+	if o.K == "restart" {
+		return "RRestart " + coqfmt.Bool(o.LoadFail) + " " + o.F.coq()
+	}
+	return "ROp (" + o.opCoq() + ")"
+}
+
+func (o op) opCoq() string {
 	switch o.K {
 	case "tick":
 		return "OTick " + o.F.coq()
@@ -228,13 +236,15 @@ type world struct {
 	// confirmation times are placed (through the hook) as far in the real past as they are in the virtual one; all virtual
 	// distances are multiples of 10 s and no timeout is, so the few microseconds of real time in between never decide
 	vnow     int64
+	vinit    int64 // virtual creation time of the current manager
 	vmembers map[uint64]int64
+	curC     cfg // the configuration the current manager runs with
 }
 
 func (w *world) placeClock() {
 	it, members := w.m.VerifC19Clock()
 	now := time.Now()
-	*it = now.Add(-time.Duration(w.vnow) * time.Millisecond) // created at virtual time 0
+	*it = now.Add(-time.Duration(w.vnow-w.vinit) * time.Millisecond)
 	for id := range members {
 		delete(members, id)
 	}
@@ -333,7 +343,8 @@ func newWorld(b boot) *world {
 		panic(err)
 	}
 	w.m = m
-	w.vnow, w.vmembers = 0, map[uint64]int64{}
+	w.vnow, w.vinit, w.vmembers = 0, 0, map[uint64]int64{}
+	w.curC = b.C
 	return w
 }
 
@@ -386,6 +397,21 @@ func (w *world) arm(f fault) {
 func (w *world) exec(o op, label *string) string {
 	r := "ROk"
 	switch o.K {
+	case "restart":
+		// a new leader: a new ModeManager on the same storage, cluster and file replicater; the read of the persisted status may fail
+		w.arm(o.F)
+		if o.LoadFail {
+			w.kb.ArmLoads(map[int]bool{0: true})
+		}
+		m, err := replication.NewReplicationModeManager(w.curC.real(), w.st, w.fc, w.rec)
+		w.kb.ArmLoads(nil)
+		w.kb.Arm(nil)
+		if err != nil {
+			r = "RErr" // the previous manager stays
+		} else {
+			w.m = m
+			w.vinit, w.vmembers = w.vnow, map[uint64]int64{}
+		}
 	case "advance":
 		w.vnow += o.Dt
 	case "member":
@@ -399,6 +425,8 @@ func (w *world) exec(o op, label *string) string {
 		w.arm(o.F)
 		if err := w.m.UpdateConfig(o.C.real()); err != nil {
 			r = "RErr"
+		} else {
+			w.curC = o.C
 		}
 	case "layout":
 		w.setLayout(o.L)
@@ -485,6 +513,10 @@ func gen(r *rng.R, sh *shadow, nextRID *uint64, malformed bool) op {
 	}
 	if !ft.Save && r.Pct(7) {
 		ft.Alloc, ft.AIdx = true, r.Pick(80, 20)
+	}
+	if r.Pct(5) {
+		// a leader change: the read of the persisted status fails in 40 % of them
+		return op{K: "restart", LoadFail: r.Pct(40), F: ft}
 	}
 	if r.Pct(10) {
 		if r.Pct(65) {
